@@ -12,6 +12,7 @@ Proofs: Proofs/LitParts, LitFloatParse, Literals, and the Lex* files.
 import EvalexprVerif.Proofs.Literals
 import EvalexprVerif.Proofs.AgreeToken
 import EvalexprVerif.Proofs.Nearest
+import EvalexprVerif.Proofs.LexExt
 
 namespace Evalexpr.Spec.C06
 open Evalexpr Evalexpr.Spec
@@ -26,6 +27,25 @@ theorem C06_string_embedded (pre post : List (Gap × PTok)) (g0 g : Gap) (t : St
       = .ok (pre.map (·.2.tok) ++ .string t :: post.map (·.2.tok)) := by
   have := Evalexpr.Spec.C07_roundtrip _ g hp ha
   simpa using this
+
+/-- any literal in any spelling (decimal, hex, positional or scientific float with or without a signed
+exponent, boolean, string) between any other tokens, separated only where the lexer needs it, is still
+exactly its token (instance of `C07_roundtrip_ext`) -/
+theorem C06_literal_embedded (pre post : List (Gap × PTok)) (g0 g : Gap) (lit : PTok)
+    (hp : ∀ p ∈ pre ++ (g0, lit) :: post, p.2.PrintableX)
+    (ha : AdmissibleX (pre ++ (g0, lit) :: post) g) :
+    tokenize (renderFrom (pre ++ (g0, lit) :: post) g)
+      = .ok (pre.map (·.2.tok) ++ lit.tok :: post.map (·.2.tok)) := by
+  have := Evalexpr.Spec.C07_roundtrip_ext _ g hp ha
+  simpa using this
+
+/-- the three embedded examples of the property text -/
+theorem C06_hex_embedded : tokenize cl!"0x1e-3" = .ok [.int 30, .minus, .int 3] :=
+  Evalexpr.Spec.C06_hex_embedded
+theorem C06_signed_embedded : ∃ f g, F64.parse cl!"5e-3" = some f ∧ F64.parse cl!"2e-3" = some g ∧
+    tokenize cl!"5e-3-2e-3" = .ok [.float f, .minus, .float g] := Evalexpr.Spec.C06_signed_embedded
+theorem C06_signed_after_ident : ∃ f, F64.parse cl!"1e+2" = some f ∧
+    tokenize cl!"a-1e+2" = .ok [.identifier cl!"a", .minus, .float f] := Evalexpr.Spec.C06_signed_after_ident
 
 theorem C06_bad_escape (u v : Str) (c : Char) (hc : c ≠ '"' ∧ c ≠ '\\') :
     tokenize ('"' :: escape u ++ '\\' :: c :: v) = .error (.illegalEscapeSequence ['\\', c]) :=
